@@ -1,12 +1,15 @@
+pub mod configsim;
 pub mod crashsim;
+pub mod hashsim;
 pub mod reposim;
 pub mod tablesim;
+pub mod tasksim;
 pub mod wcsim;
 
 use crate::core::runner::Engine;
 
 pub fn all() -> Vec<Box<dyn Engine>> {
-    vec![Box::new(tablesim::TableSim), Box::new(reposim::RepoSim), Box::new(wcsim::WcSim)]
+    vec![Box::new(tablesim::TableSim), Box::new(reposim::RepoSim), Box::new(wcsim::WcSim), Box::new(tasksim::TaskSim), Box::new(hashsim::HashSim), Box::new(configsim::ConfigSim)]
 }
 
 pub fn by_name(name: &str) -> Option<Box<dyn Engine>> {
